@@ -132,7 +132,7 @@ static cbor_item_t* _cbor_copy_int(cbor_item_t* item, bool negative) {
       break;
   }
 
-  if (negative) cbor_mark_negint(res);
+  if (res != NULL && negative) cbor_mark_negint(res);
 
   return res;
 }
